@@ -14,7 +14,7 @@ import api_tie as T
 
 def ev_text(e):
     k = e[0]
-    return {"send": "S:%s", "ack": "A:%s", "tick": "T:%s", "cancelsend": "C:%s"}.get(k, "") % e[1] if len(e) > 1 else {"data": "D", "uclose": "X"}[k]
+    return {"send": "S:%s", "ack": "A:%s", "tick": "T:%s", "cancelsend": "C:%s"}.get(k, "") % e[1] if len(e) > 1 else {"data": "D", "uclose": "X", "rflag": "T:0"}[k]
 
 
 def canon(items):
@@ -114,8 +114,10 @@ def run(chk):
                     e = ("tick", rng.choice([300, 999, 1000, 2500]))
                 elif x < 0.84:
                     e = ("cancelsend", rng.choice(tags))
-                elif x < 0.94:
+                elif x < 0.92:
                     e = ("data",)
+                elif x < 0.95:
+                    e = ("rflag",)
                 else:
                     e = ("uclose",)
                 evs.append(e)
@@ -124,6 +126,9 @@ def run(chk):
             r.close()
         evs.append(("tick", 1000 * (len(tags) + 1)))
         hist.append(evs)
+    # the reset mark set (as ZBOSS.reset() does, and it stays set when the radio does not disconnect): still stop-and-wait
+    hist.append([("rflag",), ("send", "1"), ("send", "2"), ("send", "3"), ("tick", 300), ("tick", 1000), ("tick", 1000), ("tick", 1000)])
+    hist.append([("send", "1"), ("rflag",), ("send", "2"), ("ack", 0), ("send", "3"), ("tick", 500), ("ack", 1), ("tick", 3000)])
     tie_bad = mon_bad = None
     lines = ["txs " + " ".join(ev_text(e) for e in evs) for evs in hist]
     mouts = model.batch(lines)
